@@ -154,9 +154,30 @@ def _undefined(exc_name):
     return getattr(qp.exceptions, exc_name)
 
 
+def _op_nodes(op):
+    """All operators of an operator-arithmetic tree (the instance, symbolic bases, composite operands)."""
+    out, todo = [], [op]
+    while todo:
+        x = todo.pop()
+        out.append(x)
+        b = getattr(x, "base", None)
+        if b is not None and hasattr(b, "has_matrix"):
+            todo.append(b)
+        todo.extend(getattr(x, "operands", None) or ())
+    return out
+
+
+def _input_class(op):
+    """Input-class features of the built instance (structure only; used to match known findings narrowly).
+    pow2_over_matrixless_base: the tree contains a Pow2 whose base declares has_matrix False (Pow2.compute_matrix then goes
+    through qp.matrix(base), i.e. the base's decomposition, so matrix() returns although every flag up the tree says False)."""
+    return {"pow2_over_matrixless_base": any(type(x).__name__ == "Pow2" and not x.base.has_matrix for x in _op_nodes(op))}
+
+
 def _capabilities(op, name, tags, sig):
     """has_X true => call returns; false => documented *UndefinedError. Returns {method: value}."""
     got = {}
+    cls_feats = _input_class(op)
     for flag, meth, exc in FLAGS:
         if not hasattr(op, flag):
             continue
@@ -168,18 +189,61 @@ def _capabilities(op, name, tags, sig):
         except _undefined(exc) as e:
             if val:
                 raise Viol("flag-true-but-undefined", f"{name}.{flag} is True but {meth}() raised {type(e).__name__}: {e}", sig=f"{sig}:{flag}",
-                           features={"flag": flag, "cls": sig}) from None
+                           features={"flag": flag, "cls": sig, **cls_feats}) from None
             continue
         except Exception as e:  # noqa: BLE001
             if val:
                 raise
             raise Viol("flag-false-wrong-error", f"{name}.{flag} is False but {meth}() raised {type(e).__name__}: {e} instead of {exc}",
-                       sig=f"{sig}:{flag}", features={"flag": flag, "cls": sig}) from None
+                       sig=f"{sig}:{flag}", features={"flag": flag, "cls": sig, **cls_feats}) from None
         if not val:
             raise Viol("flag-false-but-defined", f"{name}.{flag} is False but {meth}() returned {type(res).__name__}", sig=f"{sig}:{flag}",
-                       features={"flag": flag, "cls": sig})
+                       features={"flag": flag, "cls": sig, **cls_feats})
         got[meth] = res
     return got
+
+
+def _generator_branch(e, observed, order):
+    """Pow.generator is documented as z * base.generator(), i.e. exp(i*theta*z*G_base) = U_base(z*theta): a z-th power of the base on
+    the angle-scaling branch, while Pow.matrix is the principal power (recorded finding `fractional-pow-branch`). c03._branch_variant
+    only recognises that branch when eager pow / simplify / decomposition happen to produce it (not for a Controlled base, nor for a
+    base without a pow method such as OrbitalRotation), so those generator mismatches were reported as plain `representations-differ`.
+    Here the candidate for each fractional power chain is the exponential of that chain's own generator; it only counts if it is a
+    mathematically valid non-principal power of the chain's reference base (commutes with it, C^q == A^p) and substituting it into the
+    reference evaluation reproduces `observed`. Returns the kind of the chain's innermost base, else None."""
+    import itertools
+
+    import pennylane as qp
+
+    chains = opalg.power_chains(e)[:3]
+    cands = []
+    for root, inner, z in chains:
+        opts = []
+        try:
+            A, aw = opalg.evaluate(inner, c03._leaf_fallback)  # noqa: SLF001
+            P, pw = opalg.evaluate(root, c03._leaf_fallback)  # noqa: SLF001
+            c = zoo_extra.build(root)
+            if aw and c.has_generator and c.num_params == 1 and np.ndim(c.data[0]) == 0:
+                G_op = c.generator()
+                G = _dense(G_op.sparse_matrix(wire_order=aw)) if isinstance(G_op, qp.SparseHamiltonian) else np.asarray(
+                    qp.matrix(G_op, wire_order=aw), dtype=complex)
+                C = sla.expm(1j * complex(np.asarray(c.data[0])) * G)
+                if opalg.is_other_branch(C, A, z, sim.embed(P, pw, aw)):
+                    opts.append(C)
+        except Exception:  # noqa: BLE001  (classification only: no candidate)
+            pass
+        cands.append(opts)
+    for combo in itertools.product(*[[None] + o for o in cands]):
+        ov = {id(ch[0]): c for ch, c in zip(chains, combo) if c is not None}
+        if not ov:
+            continue
+        try:
+            R2, rw = opalg.evaluate(e, c03._leaf_fallback, ov)  # noqa: SLF001
+        except opalg.BranchCut:
+            continue
+        if _close(observed, sim.embed(R2, rw, order), 1e-6):
+            return next(ch[1]["op"] for ch, c in zip(chains, combo) if c is not None)
+    return None
 
 
 def _has_ctor(s, kind):
@@ -243,6 +307,8 @@ def check(spec):
             base = c03._branch_variant(e, obs, order)  # noqa: SLF001
             if base is None and a in reps:
                 base = c03._branch_variant(e, reps[a], order)  # noqa: SLF001
+            if base is None and "exp(i*theta*G)" in (a, b):
+                base = _generator_branch(e, reps["exp(i*theta*G)"], order)
             if base is not None:
                 return Viol("fractional-pow-branch", f"stage={clause} {a} vs {b} expr={e}", sig=f"fractional-pow-branch:{base}",
                             features={"fractional_pow_branch": True, "base": base, "stage": clause})
